@@ -13,6 +13,7 @@ EXPLANATION = (
     "R5 global state: the only statics are statistics counters (never read on a path into state) and the inflator table, a pure function of its index."
     " R5 also requires the fill path of the inflator table to hand back the entry at the requested index (`inflator/result`: lookup and fill are separate critical sections)."
     " R1 requires the first sort of a sequence drawn from a map to be total (whole element or the map key). R7 also reports a whole-state read (seal/header of the state being extended; today's height-0 fallback of the covenant's last header is the recorded finding D28). Imports C02.R3 (in-batch double-spend detection does not depend on positions) and C13.R3f."
+    ' Imports C02.R5 (what a batch does to the coin tree does not depend on what earlier calls of the same block recorded).'
 )
 NOT_DECIDED = ["extensional equality with one-at-a-time application in every dependency-respecting order (an equality of commitments over all batches)",
                "iteration order of novasmt::Tree::iter (only used for commutative count increments)"]
